@@ -899,6 +899,186 @@ def check_C14(tier, seed):
 
 
 # ---------------------------------------------------------------------------
+# C07: source text denotes one tree
+# ---------------------------------------------------------------------------
+def tlc_vectors(spec, cfg, wd, env=None, simulate=None, extra=None):
+    r = core.run_tlc(spec, cfg, env=env, workdir_=wd, simulate=simulate, extra=extra, timeout=1800)
+    if r.error or r.violated:
+        raise ToolError(f"{spec}: {r.error or r.violated}")
+    return r
+
+
+def parse_files_leg(o, name, files, wd):
+    t0 = time.time()
+    results = run_tv_shards(files, "TV_Parse.tla", "TV_Parse.cfg", wd)
+    counts = {}
+    n = 0
+    good = []
+    for f, r in zip(files, results):
+        o.add_tlc(r)
+        recs = {x["id"]: x for x in core.read_ndjson(f)}
+        n += len(recs)
+        if len(r.verdicts) != len(recs):
+            raise ToolError(f"{name}: {len(r.verdicts)} verdicts for {len(recs)} records")
+        for v in r.verdicts:
+            key = v["class"] + ":" + v["rule"]
+            counts[key] = counts.get(key, 0) + 1
+            o.traces += 1
+            rec = recs[v["id"]]
+            if v["class"] == "mismatch":
+                o.violation({"leg": name, "rule": "parse:" + v["rule"], "style": rec["style"], "msg": rec.get("err"),
+                             "text": rec["text"][:400]},
+                            {"text": rec["text"], "expected_tree": rec["expect"], "parsed_tree": rec["got"], "error": rec.get("err")})
+            elif len(good) < 30:
+                good.append(rec)
+    for r_ in good[:2]:
+        o.samples.append({"leg": name, "text": r_["text"][:200], "layout_style": r_["style"]})
+    tried = rejected = 0
+    cand = [r_ for r_ in good if r_["got"] and r_["got"][0].get("e", {}).get("k") == "Infix"]
+    if cand:
+        bad = []
+        for r_ in cand[:8]:
+            c = copy.deepcopy(r_)
+            e = c["got"][0]["e"]
+            e["l"], e["r"] = e["r"], e["l"]
+            if e["l"] == e["r"]:
+                e["op"] = "%" if e["op"] != "%" else "+"
+            bad.append(c)
+        bf = os.path.join(wd, f"corrupt_{name}.ndjson")
+        core.write_ndjson(bf, bad)
+        rr = core.tlc_or_die("TV_Parse.tla", "TV_Parse.cfg", env={"RECS": bf}, workdir_=wd)
+        tried = len(bad)
+        rejected = sum(1 for v in rr.verdicts if v["class"] == "mismatch")
+        if tried != rejected:
+            raise ToolError(f"{name}: sensitivity self-test failed ({rejected}/{tried})")
+    o.legs.append({"leg": name, "records": n, "verdicts": counts, "sensitivity_tried": tried,
+                   "sensitivity_rejected": rejected, "wall_s": round(time.time() - t0, 1)})
+
+
+def check_C07(tier, seed):
+    o = Outcome("C07", tier, seed, "model_checking")
+    o.assumptions = [
+        "the precedence table, associativity, else-if nesting, op-assignment desugaring and the printed form (Unparse) of spec/NlGrammar.tla",
+        "layouts (separators from the interpreter's eleven white-space code points, line comments, redundant parentheses around literals, dropped optional `;`, no separator where maximal munch allows) are applied by the harness to the token list the specification prints",
+        "the parser's tree is read through the hook `verif::ast_json` (a projection of the tree returned by the public parse)",
+    ]
+    wd = core.workdir("C07_vectors")
+    fams = ["pairs"] + (["triples"] if tier == "thorough" else [])
+    vecs = []
+    for fam in fams:
+        r = tlc_vectors("MC_Grammar.tla", "MC_Grammar.cfg", wd, env={"FAMILY": fam})
+        o.add_tlc(r)
+        vecs += r.vecs
+    if tier == "quick":
+        # a seeded sample of the operator triples on top of the complete pairs
+        r = tlc_vectors("MC_Grammar.tla", "MC_Grammar.cfg", wd, env={"FAMILY": "triples"})
+        o.add_tlc(r)
+        rng = random.Random(seed)
+        vecs += rng.sample(r.vecs, min(1500, len(r.vecs)))
+    shards = core.NCPU
+    files = []
+    for k in range(shards):
+        f = os.path.join(wd, f"vec{k}.ndjson")
+        core.write_ndjson(f, vecs[k::shards])
+        files.append(f)
+
+    def rep(k):
+        out = os.path.join(wd, f"prs{k}.ndjson")
+        core.run_nlh(["replay-parse", "--in", files[k], "--out", out, "--seed", seed * 13 + k,
+                      "--layouts", size(tier, 4, 16), "--first-id", k * 1000000 + 1])
+        return out
+    reps = core.parallel(rep, list(range(shards)))
+    parse_files_leg(o, "enumerated-trees", reps, wd)
+    wd2 = core.workdir("C07_random")
+    n = size(tier, 2400, 60000)
+
+    def gen(i):
+        f = os.path.join(wd2, f"g{i}.ndjson")
+        core.run_nlh(["gen-parse", "--seed", seed * 17 + i, "--n", n // shards, "--first-id", i * 1000000 + 1, "--out", f])
+        return f
+    gfiles = core.parallel(gen, list(range(shards)))
+    parse_files_leg(o, "random-statement-trees", gfiles, wd2)
+    o.extra["exhaustive"] = True
+    o.extra["vectors_from_spec"] = len(vecs)
+    o.extra["rule"] = ("trees enumerated by TLC from NlGrammar: every ordered pair of the 13 binary operators in both nestings, prefix / call / "
+                       "index / assignment against every operator, op-assignment and else-if shapes (complete), operator triples in all five "
+                       "shapes (complete in the thorough tier, sampled in the quick tier); each printed by the specification and rendered under "
+                       "several layouts; random statement-level trees beyond")
+    return o.finish()
+
+
+# ---------------------------------------------------------------------------
+# C08: tokenisation and literals
+# ---------------------------------------------------------------------------
+def check_C08(tier, seed):
+    o = Outcome("C08", tier, seed, "model_checking")
+    o.assumptions = [
+        "spec/NlLexer.tla: maximal munch, whole-word keywords, identifier / number spelling, the eleven white-space code points, line comments, escape-aware scan to the closing quote, Decode of the four escapes",
+        "for code points beyond ASCII the alphabetic / alphanumeric class is supplied by the recorder from Rust's char predicates (the ones the implementation uses)",
+        "token kinds and spellings are read from the Debug rendering of the token stream (hook verif::tokens); decoded strings from the tree of the public parse",
+    ]
+    wd = core.workdir("C08_lex")
+    shards = core.NCPU
+
+    def gen(i):
+        f = os.path.join(wd, f"lex{i}.ndjson")
+        core.run_nlh(["gen-lex", "--seed", seed, "--n", size(tier, 6000, 400000), "--shards", shards, "--shard", i,
+                      "--first-id", i * 1000000 + 1, "--out", f])
+        return f
+    files = core.parallel(gen, list(range(shards)))
+    t0 = time.time()
+    results = run_tv_shards(files, "TV_Lex.tla", "TV_Lex.cfg", wd)
+    counts = {}
+    n = 0
+    good = []
+    for f, r in zip(files, results):
+        o.add_tlc(r)
+        recs = {x["id"]: x for x in core.read_ndjson(f)}
+        n += len(recs)
+        if len(r.verdicts) != len(recs):
+            raise ToolError(f"C08: {len(r.verdicts)} verdicts for {len(recs)} records")
+        for v in r.verdicts:
+            key = v["class"] + ":" + v["rule"]
+            counts[key] = counts.get(key, 0) + 1
+            o.traces += 1
+            rec = recs[v["id"]]
+            if v["class"] == "mismatch":
+                o.violation({"leg": "lex", "rule": "lex:" + v["rule"], "text": rec["text"][:200],
+                             "class": "Panic" if rec.get("crashed") else None},
+                            {"text": rec["text"], "tokens": [(t["k"], core.text_of(t["txt"]), t["e"]) for t in rec["toks"]],
+                             "final": rec["final"], "parse_ok": rec["parse_ok"], "parse_kind": rec["parse_kind"],
+                             "decoded_strings": [core.text_of(x) for x in rec["strs"]]})
+            elif len(good) < 40 and rec["toks"]:
+                good.append(rec)
+    for r_ in good[:3]:
+        o.samples.append({"text": r_["text"][:80], "tokens": [(t["k"], core.text_of(t["txt"])) for t in r_["toks"]][:8]})
+    bad = []
+    for k, r_ in enumerate(good[:12]):
+        c = copy.deepcopy(r_)
+        if k % 3 == 0:
+            c["toks"][0]["e"] += 1
+        elif k % 3 == 1:
+            c["toks"] = c["toks"][:-1]
+        else:
+            c["toks"][-1]["k"] = "Caret" if c["toks"][-1]["k"] != "Caret" else "Plus"
+        bad.append(c)
+    bf = os.path.join(wd, "corrupt.ndjson")
+    core.write_ndjson(bf, bad)
+    rr = core.tlc_or_die("TV_Lex.tla", "TV_Lex.cfg", env={"RECS": bf}, workdir_=wd)
+    rej = sum(1 for v in rr.verdicts if v["class"] == "mismatch")
+    if rej != len(bad):
+        raise ToolError(f"C08: sensitivity self-test failed ({rej}/{len(bad)})")
+    o.legs.append({"leg": "lex", "records": n, "verdicts": counts, "sensitivity_tried": len(bad),
+                   "sensitivity_rejected": rej, "wall_s": round(time.time() - t0, 1)})
+    o.extra["exhaustive"] = True
+    o.extra["rule"] = ("every token of a 66-entry vocabulary (keywords, near-keywords, ASCII and non-ASCII identifiers, numbers, strings, all "
+                       "operators) alone and every ordered pair with four separator choices including none; illegal characters and unclosed "
+                       "strings; all string contents up to length 4 over {a, quote, backslash, n, t, brace, e-acute} written as literals and all "
+                       "raw literal bodies up to length 3 (complete enumeration); random token/separator sequences beyond")
+    return o.finish()
+
+
+# ---------------------------------------------------------------------------
 # C06: operators, exact over the whole range
 # ---------------------------------------------------------------------------
 def corrupt_big(rec, k):
@@ -996,6 +1176,8 @@ def check_C06(tier, seed):
 CHECKS = {
     "C01": check_C01,
     "C06": check_C06,
+    "C07": check_C07,
+    "C08": check_C08,
     "C09": check_C09,
     "C11": check_C11,
     "C12": check_C12,
